@@ -158,10 +158,19 @@ def o_hbond_beyond_cutoff(ctx):
 
 # -- iterative solver: clusters are independent --------------------------------------
 
-def _cluster(ctx, tag, qs, resnum0):
+def _cluster(ctx, tag, qs, resnum0, hetero=False):
     spec = {-1: ('COOGroup', 'ASP', 'CG'), 1: ('HISGroup', 'HIS', 'CG')}
+    # hetero: ligand groups; their labels carry atom name and chain but not the residue
+    # number, so two copies of one ligand in a chain have EQUAL labels (identity = label + number)
+    hspec = {-1: ('OCOGroup', 'LIG', ['C1', 'C7']), 1: ('NARGroup', 'LIG', ['N1', 'N3'])}
     gs = []
     for i, q in enumerate(qs):
+        if hetero:
+            cls, rn, names = hspec[q]
+            g = mk_group(cls, rn, resnum0, names[i % 2], q=float(q), rec='hetatm')
+            g.model_pka = ctx.real('%s_pka%d' % (tag, i), 0, 14)
+            gs.append(g)
+            continue
         cls, rn, an = spec[q]
         g = mk_group(cls, rn, resnum0 + i, an, q=float(q))
         g.model_pka = ctx.real('%s_pka%d' % (tag, i), 0, 14)
@@ -172,7 +181,7 @@ def _cluster(ctx, tag, qs, resnum0):
 def _clone_groups(gs, resnum_shift=0):
     out = []
     for g in gs:
-        h = mk_group(type(g).__name__, g.atom.res_name.strip(), g.atom.res_num, g.atom.name, q=g.charge)
+        h = mk_group(type(g).__name__, g.atom.res_name.strip(), g.atom.res_num, g.atom.name, q=g.charge, rec=g.atom.type)
         h.model_pka = g.model_pka
         out.append(h)
     return out
@@ -182,12 +191,14 @@ def _dets(g):
     return [(k, d.label, d.value) for k in KINDS for d in g.determinants[k]]
 
 
-def mk_iterative(qa, qb):
+def mk_iterative(qa, qb, hetero=False):
     def body(ctx):
         import propka.iterative as I
         v = H.version()
-        A = _cluster(ctx, 'A', qa, 10)
-        B = _cluster(ctx, 'B', qb, 50)
+        A = _cluster(ctx, 'A', qa, 10, hetero)
+        B = _cluster(ctx, 'B', qb, 50, hetero)
+        if hetero:
+            ctx.claim('copies-share-labels', [g.label for g in A] == [g.label for g in B] if qa == qb else True)
         ha, ca = ctx.real('A_hb', 0, 1.7), ctx.real('A_coul', 0, 2.1)
         hb_, cb = ctx.real('B_hb', 0, 1.7), ctx.real('B_coul', 0, 2.1)
         joint = [[[A[0], A[1]], [ha, ca], [0., 0.]], [[B[0], B[1]], [hb_, cb], [0., 0.]]]
@@ -322,6 +333,10 @@ def obligations(tier):
                                   bounds='%s (with the program\'s own hydrogens, keep-protons) plus a copy in chain B shifted along x so that the gap between nearest atoms is a real number in [%g, %g]' % (name, lo, lo + (0.8 if tier == 'quick' else 2.509)),
                                   claim_doc='no exception; every group of either copy has the desolvation, pKa and determinants of the single-copy run',
                                   max_paths=5000, wall_s=170 if tier == 'quick' else 1200, shards=6))
+    for q in ((-1, -1), (-1, 1)):
+        obs.append(Obligation('O2-iterative-clusters-two-ligand-copies[%+d%+d]' % q, mk_iterative(q, q, hetero=True), code=obs[-1].code if obs else [],
+                              bounds='two copies of one ligand in one chain (same atom names, different residue numbers: equal labels), one interaction each, all values symbolic',
+                              claim_doc='determinants of copy A in the joint run == copy A alone', max_paths=20000, wall_s=170, query_timeout_ms=20000))
     three = [((-1, -1, 1), (-1, 1), 2)] if tier == 'quick' else [((-1, -1, 1), (-1, 1), 2), ((-1, 1, 1), (-1, -1), 2), ((-1, -1, -1), (1, 1), 2), ((-1, -1, 1), (-1, 1), 3)]
     for qa, qb, ni in three:
         obs.append(Obligation('O2-iterative-clusters-3+2[A=%s,B=%s,%d interactions]' % (''.join('%+d' % q for q in qa), ''.join('%+d' % q for q in qb), ni),
